@@ -150,6 +150,20 @@ Example repaired_loop_on_refutation_input :
   with Ret _ l => map (fun i => Qred (i_sma Qnum i)) l | _ => [] end = [10].
 Proof. vm_compute. reflexivity. Qed.
 
+(* provenance of the returned geometries ([i_geom]; tied to the real code through geometry tokens of the
+   scripted runs): step 0.2 from sma0 = 5, maxsma 14, maxrit 8.  Calls 1-3 fit 5, 6, 7.2 (the third fails:
+   _fix_last_isophote copies the geometry of call 2); 8.64, 10.37, 12.44 lie beyond maxrit: extracted
+   non-iteratively along a copy of the LAST isophote's geometry (2), not along the first guess (0); inwards the
+   failed fit at 125/36 (call 8) gets the geometry of the FIRST isophote (call 1); the central isophote
+   copies the innermost one (call 18).  Listed by increasing sma: (stop code, provenance). *)
+Example geometry_provenance_example :
+  match fst (fit_image Qnum false (1 # 5) 0 (Some 14) (Some 8) true 50 (Some 5) 5 false
+         ([(0, true); (0, true); (-1, true); (0, true); (-1, true)] ++ repeat (0, true) 11)%Z)
+  with Ret _ l => map (fun i => (i_code Qnum i, i_geom Qnum i)) l | _ => [] end
+  = [(0, 18); (0, 18); (0, 17); (0, 16); (0, 15); (0, 14); (0, 13); (0, 12); (0, 11); (0, 10); (0, 9);
+     (5, 1); (0, 7); (0, 1); (0, 2); (5, 2); (4, 2); (4, 2); (4, 2)]%Z.
+Proof. vm_compute. reflexivity. Qed.
+
 (* ------------------------------------------------------------------ *)
 (* (C) fixed parameters in EllipseFitter.fit                           *)
 (* ------------------------------------------------------------------ *)
